@@ -54,6 +54,8 @@ def c01(res: CheckResult) -> None:
               6 if res.tier == "quick" else 60)
     def_unit(res, "post-hoc decoration of a member of an already created class: the calls on every class obey the "
                   "effective preconditions", list(DF.fam_posthoc(res.tier, rng)), ic, verdicts=True, rng=rng)
+    def_unit(res, "decorator objects shared between the method of a base and the overrides",
+             list(DF.fam_shared_decos(res.tier, rng)), ic, verdicts=True, rng=rng)
     def_unit(res, "inherited precondition groups incl. overrides under foreign decorators: calls judged against the "
                   "effective DNF for all truth assignments", list(DF.fam_foreign_hier(res.tier, rng)), ic,
              verdicts=True, rng=rng)
@@ -101,6 +103,8 @@ def c02(res: CheckResult) -> None:
              verdicts=True, rng=rng)
     def_unit(res, "special methods (__call__) inherit postconditions like any method",
              list(DF.fam_dunder(res.tier, rng)), ic, verdicts=True, rng=rng)
+    def_unit(res, "properties with / without setters along hierarchies: each accessor inherits on its own",
+             list(DF.fam_accessors(res.tier, rng)), ic, verdicts=True, rng=rng)
     _passive(res)
 
 
@@ -119,6 +123,8 @@ def c08(res: CheckResult) -> None:
     def_unit(res, "snapshot names along hierarchies: duplicates between bases, between base and override; "
                   "snapshots placed before any postcondition", list(DF.fam_snap_names(res.tier, rng)), ic, rng=rng)
     def_unit(res, "decorator stacks: snapshots at every position", list(DF.fam_stacks(res.tier, rng)), ic, rng=rng)
+    def_unit(res, "properties with / without setters along hierarchies: each accessor inherits on its own",
+             list(DF.fam_accessors(res.tier, rng)), ic, verdicts=True, rng=rng)
     from icv import tablecheck as T
     T.check_misuse(res, ic, only=lambda cell: cell["d"] == "snapshot")
 
@@ -280,6 +286,10 @@ def c04(res: CheckResult) -> None:
              list(DF.fam_async_members(res.tier, rng)), ic, verdicts=True, rng=rng)
     def_unit(res, "properties with / without setters along hierarchies: each accessor inherits on its own",
              list(DF.fam_accessors(res.tier, rng)), ic, verdicts=True, rng=rng)
+    def_unit(res, "decorator objects shared between the method of a base and the overrides",
+             list(DF.fam_shared_decos(res.tier, rng)), ic, verdicts=True, rng=rng)
+    def_unit(res, "overrides carrying foreign functools.wraps decorators in hierarchies",
+             list(DF.fam_foreign_hier(res.tier, rng)), ic, verdicts=True, rng=rng)
     def_unit(res, "invariant lists along definition histories (every check_on combination): which members check them",
              list(DF.fam_inv_lists(res.tier, rng)), ic, verdicts=True, rng=rng)
     def_unit(res, "wrap table: which members of a class and of its sub-classes check the accumulated invariants",
